@@ -9,7 +9,7 @@ PROP = {
             "used objects (original, copies and assignment targets taken at random points): Interpolate/operator(), Derivative(0..4), Integrate, Local_Minimum/Maximum, Locate, "
             "Global_*, Set_Prefactor/Multiply, copy construction, assignment; queries by a random walk (short steps both ways, far jumps, repeats, knots, nextafter neighbours, "
             "domain ends, 1% extrapolation zone); 2D grids up to 200x120 likewise",
-    "floors": {"quick": {"cases": 400, "distinct_nontrivial": 100, "ticks": {"Locate.hunt": 100000, "Locate.bisection": 100000},
+    "floors": {"quick": {"cases": 2000, "distinct_nontrivial": 1700, "ticks": {"Locate.hunt": 100000, "Locate.bisection": 100000},
                          "clauses": {"interpolate-bit-identical-to-fresh-object-off-knots": 200000, "interpolate-within-rounding-of-fresh-object-at-knots": 30000,
                                      "derivative-bit-identical-to-fresh-object-off-knots": 80000, "local-extremum-bit-identical-to-fresh-object-off-knots": 30000,
                                      "locate-identical-to-fresh-object-off-knots": 40000, "integrate-within-rounding-of-prefactor-times-fresh-object": 40000,
